@@ -21,7 +21,8 @@ BENIGN_METHODS = {
     'cancelled', 'result', 'exception', 'set_result', 'set_exception', 'add_done_callback',
     'remove_done_callback', 'debug', 'info', 'warning', 'error', 'log', 'with_traceback', 'appendleft', 'popleft',
     '__iter__', '__contains__', 'is_filtered', 'create_future', 'create_task', 'compile', 'fset', 'set', 'lower',
-    'upper', 'encode', 'decode', 'index', 'count', 'insert', 'sort', 'reverse', 'from_string',
+    'upper', 'encode', 'decode', 'index', 'count', 'insert', 'sort', 'reverse', 'from_string', 'removeprefix', 'removesuffix', 'partition', 'rpartition', 'rsplit',
+    'lstrip', 'rstrip', 'replace', 'isidentifier', 'title', 'popitem', 'difference', 'union', 'intersection', 'issubset', 'issuperset',
     '__getattribute__', '__new__', '__get__', '__init__', 'represent_scalar', 'construct_scalar', 'represent_mapping',
     'construct_mapping',
 }
